@@ -7,7 +7,7 @@
      RESOLVE <k> {<key-enc> <val-enc>}* <name-enc>  -> R <enc>   TypeContext::resolve_complex_type (type_map[key] = val in order)
      TARGS <name-enc>               -> A <base-enc> <n> <arg-enc>* | A -    the type arguments find_impl_for_struct cuts out
      CTX <fuel> <nblocks> {<base> <np> <param>* <nm> {<mname> <nmp> {<pname> <ptype>}* <na> <act>*}*}* <ncalls> {<rty> <m> <n>}*
-         act = O <ty> | D <v> <ty> | C <v> <m> | G <fn> | R <k> | F      (all names encoded)
+         act = O <ty> | D <v> <ty> | C <v> <m> | Y <v> <m> (try) | G <fn> | R <k> | F      (all names encoded)
                                     -> one group per call from main, separated by " ; ":
                                        <N|R|E> <stack depth after> <observed-name-enc>*
    Trees: ( kind nscalars {fname =enc}* nkids {fname node}* ) *)
@@ -75,6 +75,7 @@ let load_act () =
   | "O" -> AObs (estr ())
   | "D" -> let v = estr () in let ty = estr () in ADecl (v, ty)
   | "C" -> let v = estr () in let m = estr () in ACall (v, m)
+  | "Y" -> let v = estr () in let m = estr () in ATry (v, m)
   | "G" -> AFn (estr ())
   | "R" -> ARetIf (nat_of_int (num ()))
   | "F" -> AFail
